@@ -341,7 +341,8 @@ class C01(FsScenario):
             "unlink/mkdir/makedirs/rmdir/rmtree/rename+replace/move out/move in of files and trees/drain, watch flags recursive|non-recursive x normal|full emitter x str|bytes root, "
             "pairing delay, read-buffer split policy, scheduler configuration); distinct = distinct (history digest, interleaving digest); non-trivial = a non-default scheduling "
             "decision was taken or a fault (short read, stall) fired; also: an entry that left the tree may return (moveback), special entries (FIFO, dangling link, link to a directory), "
-            "an overflow marker appended to a read (8% of the runs, nothing dropped), and in 15% of the runs a second watch on a sub-directory on the same observer")
+            "an overflow marker appended to a read (8% of the runs, nothing dropped), and in 15% of the runs a second watch on a sub-directory on the same observer; C01 itself: "
+            "20% of the runs go on operating on entries that have left the tree, 15% drain after every operation, 6% start from the directed shape replace-a-directory-by-rename / move it out / operate outside / re-use the name")
     level_text = ("Seeded search over histories x schedules x kernel-buffer splits of the real InotifyObserver on the real kernel; oracle: replaying the delivered created/deleted/moved "
                   "events (most lenient natural semantics) over the tree at start() gives exactly the tree on disk at the final quiescence (root's direct children for a non-recursive watch).")
     level_note = "sampling, not proof; real kernel trusted as deterministic serialised component; histories limited to 3 names x depth 3, <=12 (rarely 40) operations"
@@ -725,7 +726,7 @@ C19_NAMES = ("a", "é", "\udcff\udcfe", "b c")
 class C19(FsScenario):
     prop = "C19"
     design_ref = "DESIGN.md 4/C19"
-    rule = ("path configurations drawn per run: root as str / bytes / pathlib.Path x absolute / relative / trailing slash / './root' / embedded '/./' / doubled '//'; names from {a, e-acute, the two bytes FF FE (invalid UTF-8), 'b c'}; "
+    rule = ("path configurations drawn per run: root as str / bytes / pathlib.Path x absolute / relative / trailing slash / './root' / embedded '/./' / doubled '//'; names from {a, e-acute, the two bytes FF FE (invalid UTF-8), 'b c'} or, in 40% of the runs, a universe with a name that is a strict prefix of a sibling's (e-acute / e-acute+a, FF / FF FE); "
             "operation histories of C03; backend = inotify observer (FS-world) or polling observer on the real scratch tree under the virtual clock; distinct = distinct (history, configuration, "
             "interleaving) digests; non-trivial = non-ASCII or undecodable name occurred in a delivered path, or a pre-emption was taken")
     level_text = ("Invariant over threaded runs of both observers: every non-empty src/dest path of every delivered event has the type of the scheduled path (bytes iff bytes) and, encoded with the "
